@@ -8,6 +8,7 @@ use tokio::sync::oneshot::{self, error::TryRecvError};
 pub fn harnesses() -> Vec<Harness> {
     vec![
         Harness { name: "c05_event_step", property: "C05", f: c05_event_step, about: "one reply / terminating event on an arbitrary pending read (<=2 versions, <=2 responders each, 1..2 callers, any quorum, optional expected value) with symbolic peer and content identities" },
+        Harness { name: "c05_split_transactions", property: "C05", f: c05_split_transactions, about: "peers hold differing versions of a transaction record (plus a version of another kind); when one version reaches the quorum the caller gets the union of all transactions or the full set of versions" },
         Harness { name: "c05_dedup", property: "C05", f: c05_dedup, about: "a second caller for a key that is already being read is attached to the running query: the outcome it receives must satisfy its own quorum and expected value" },
     ]
 }
@@ -219,6 +220,77 @@ fn same_kind(a: &Msg, b: &Msg) -> bool {
     std::mem::discriminant(a) == std::mem::discriminant(b) && match (a, b) {
         (Err(x), Err(y)) => std::mem::discriminant(x) == std::mem::discriminant(y),
         _ => true,
+    }
+}
+
+fn c05_split_transactions() {
+    let self_id = SymU::<256>::fresh("self_peer");
+    let mut d = SwarmDriver::new(PeerId(self_id));
+    // three versions, one responder each, held in the version map in any order:
+    // a record that is not a transaction record, transactions {A}, transactions {B, C}
+    let junk = SymU::<256>::fresh("junk_content");
+    let versions: Vec<Content> = vec![Content::Opaque(junk), Content::Transactions(vec![Transaction(1)]), Content::Transactions(vec![Transaction(2), Transaction(3)])];
+    let perms: [[usize; 3]; 6] = [[0, 1, 2], [0, 2, 1], [1, 0, 2], [1, 2, 0], [2, 0, 1], [2, 1, 0]];
+    let order = perms[choice(6)];
+    let with_junk = choice(2) == 1;
+    let mut result_map: GetRecordResultMap = HashMap::new();
+    let mut n_versions = 0usize;
+    let mut firsts: Vec<SymU<256>> = vec![];
+    for (slot, vi) in order.iter().enumerate() {
+        if *vi == 0 && !with_junk {
+            continue;
+        }
+        let p = SymU::<256>::fresh(&format!("first_responder_{slot}"));
+        firsts.push(p);
+        let mut set: HashSet<PeerId> = HashSet::new();
+        set.0.push(PeerId(p));
+        let r = rec(versions[*vi].clone());
+        result_map.0.push((XorName::from_content(&r.value), (r, set)));
+        n_versions += 1;
+    }
+    let (tx, mut rx) = oneshot::channel::<Msg>();
+    let quorum = Quorum::N(NonZeroUsize::new(2).unwrap());
+    let cfg = GetRecordCfg { get_quorum: quorum, retry_strategy: None, target_record: None, expected_holders: HashSet::new(), is_register: false };
+    d.pending_get_record.0.push((QueryId(1), (the_key(), vec![tx], result_map, cfg)));
+    // a further peer answers with one of the transaction versions: that version reaches the quorum of 2
+    let which = 1 + choice(2);
+    let p = SymU::<256>::fresh("second_responder");
+    // a peer that has not answered yet (the same peer answering twice is c05_event_step's subject)
+    for f in &firsts {
+        assume(f.seq(p).not().0);
+    }
+    // collision freedom of the content hash: the opaque version's identity is not a transaction list's identity
+    for v in &versions[1..] {
+        assume(junk.seq(XorName::from_content(v).0).not().0);
+    }
+    note(format!("versions in map order {:?} (0 = not a transaction record, present={with_junk}); version {which} reaches the quorum", order));
+    let step = ProgressStep { count: NonZeroUsize::new(1 + n_versions).unwrap(), last: false };
+    let r = d.accumulate_get_record_found(QueryId(1), PeerRecord { peer: Some(PeerId(p)), record: rec(versions[which].clone()) }, QueryStats, step);
+    check_bool("split_tx:handler_returns_ok", r.is_ok());
+    let (n, msg) = drain(&mut rx);
+    cover("completed");
+    check_bool("split_tx:caller_gets_one_outcome", n == 1);
+    match msg {
+        Some(Ok(v)) => {
+            cover("union_returned");
+            match &v.value {
+                Content::Transactions(txs) => {
+                    let mut got: Vec<u8> = txs.iter().map(|t| t.0).collect();
+                    got.sort();
+                    check_bool("split_tx:value_is_the_union_of_all_received_transactions", got == vec![1, 2, 3]);
+                }
+                _ => {
+                    check_bool("split_tx:value_is_the_union_of_all_received_transactions", false);
+                }
+            }
+        }
+        Some(Err(GetRecordError::SplitRecord { result_map })) => {
+            cover("split_returned");
+            check_bool("split_tx:split_carries_every_version", result_map.len() == n_versions);
+        }
+        _ => {
+            check_bool("split_tx:differing_versions_end_in_union_or_full_split", false);
+        }
     }
 }
 
